@@ -29,7 +29,7 @@ import sys
 import time
 
 VERIF = "/verif"
-REPO = "/repo"
+REPO = os.environ.get("VERIF_REPO", "/repo")   # a scratch worktree may be checked instead of /repo
 BUILD = os.path.join(VERIF, "build")
 COQ = os.path.join(VERIF, "coq")
 GOENV = dict(os.environ, GOFLAGS="-mod=mod", GOPROXY="off", GOSUMDB="off",
@@ -58,44 +58,70 @@ class Lock:
         self.f.close()
 
 
-def overlay_file():
-    """hooks/<pkg path>/*.go  ->  /repo/<pkg path>/<file> (build tag verif)."""
+def overlay_file(name, hooks):
+    """hooks: list of paths relative to /verif/hooks, e.g. "core/state/zz_verif_c09.go";
+    each is overlaid onto <REPO>/<same path> (files carry //go:build verif)."""
     rep = {}
-    hooks = os.path.join(VERIF, "hooks")
-    for root, _, files in os.walk(hooks):
-        for f in files:
-            if f.endswith(".go"):
-                rel = os.path.relpath(os.path.join(root, f), hooks)
-                rep[os.path.join(REPO, rel)] = os.path.join(root, f)
-    path = os.path.join(BUILD, "overlay.json")
+    for rel in hooks or []:
+        rep[os.path.join(REPO, rel)] = os.path.join(VERIF, "hooks", rel)
+    path = os.path.join(BUILD, "overlay_%s.json" % name)
     os.makedirs(BUILD, exist_ok=True)
     with open(path, "w") as fh:
         json.dump({"Replace": rep}, fh, indent=1)
     return path
 
 
-def build_harness(name):
+def build_harness(name, hooks=None):
     """Builds harness/cmd/<name> against /repo's working tree."""
     h = os.path.join(VERIF, "harness")
     with Lock("go"):
         shutil.copyfile(os.path.join(REPO, "go.sum"), os.path.join(h, "go.sum"))
-        ov = overlay_file()
+        ov = overlay_file(name, hooks)
         out = os.path.join(BUILD, name)
-        rc, log = sh(["go", "build", "-tags", "verif", "-overlay", ov, "-o", out, "./cmd/" + name],
-                     cwd=h, env=GOENV, timeout=1500)
+        cmd = ["go", "build", "-tags", "verif", "-overlay", ov, "-o", out]
+        if REPO != "/repo":
+            mf = os.path.join(BUILD, "alt_%s.go.mod" % name)
+            open(mf, "w").write(open(os.path.join(h, "go.mod")).read().replace("=> /repo", "=> " + REPO))
+            shutil.copyfile(os.path.join(REPO, "go.sum"), os.path.join(BUILD, "alt_%s.go.sum" % name))
+            cmd += ["-modfile", mf]
+        rc, log = sh(cmd + ["./cmd/" + name], cwd=h, env=GOENV, timeout=1500)
     return rc == 0, log, out
 
 
-def coq_makefile():
-    with Lock("coq"):
-        rc, log = sh(["coq_makefile", "-f", "_CoqProject", "-o", "Makefile"], cwd=COQ)
-    return rc == 0, log
+def all_specs():
+    import glob
+    out = {}
+    for p in sorted(glob.glob(os.path.join(VERIF, "props", "C*.py"))):
+        pid = os.path.basename(p)[:-3]
+        out[pid] = importlib.import_module("props." + pid).SPEC
+    return out
+
+
+def write_coqproject():
+    """_CoqProject = union of every property's coq_files (+ Lib), regenerated so
+    that properties can be added independently.  Returns True if it changed."""
+    files = set()
+    for pid, spec in all_specs().items():
+        for t in spec.get("coq_files", [x[:-1] for x in spec["coq_targets"]]):
+            files.add(t)
+    libdir = os.path.join(COQ, "Lib")
+    if os.path.isdir(libdir):
+        for f in os.listdir(libdir):
+            if f.endswith(".v") and not f.startswith("_"):
+                files.add("Lib/" + f)
+    txt = "-Q . VF\n" + "\n".join(sorted(files)) + "\n"
+    p = os.path.join(COQ, "_CoqProject")
+    old = open(p).read() if os.path.exists(p) else ""
+    if old != txt or not os.path.exists(os.path.join(COQ, "Makefile")):
+        open(p, "w").write(txt)
+        sh(["coq_makefile", "-f", "_CoqProject", "-o", "Makefile"], cwd=COQ)
+        return True
+    return False
 
 
 def coq_make(targets, jobs=16, timeout=3000):
     with Lock("coq"):
-        if not os.path.exists(os.path.join(COQ, "Makefile")):
-            sh(["coq_makefile", "-f", "_CoqProject", "-o", "Makefile"], cwd=COQ)
+        write_coqproject()
         rc, log = sh(["timeout", str(timeout), "make", "-j%d" % jobs] + targets, cwd=COQ, timeout=timeout + 60)
     return rc == 0, log
 
@@ -178,7 +204,7 @@ class Run:
 
     # ---- steps ----------------------------------------------------------
     def build(self):
-        ok, log, self.bin = build_harness(self.spec["harness"])
+        ok, log, self.bin = build_harness(self.spec["harness"], self.spec.get("hooks"))
         if not ok:
             self.say("harness build failed:\n" + log[-3000:])
             self.broken.append("harness-build (the hooks or the API the harness uses no longer compile against /repo)")
@@ -443,7 +469,7 @@ def main():
     sys.path.insert(0, VERIF)
     spec = importlib.import_module("props." + a.pid).SPEC
     if a.replay:
-        ok, log, binp = build_harness(spec["harness"])
+        ok, log, binp = build_harness(spec["harness"], spec.get("hooks"))
         if not ok:
             print(log)
             sys.exit(2)
